@@ -38,8 +38,8 @@ RULE = (
 )
 ASSUMPTIONS = [
     "bytes inputs are UTF-8 or (render_dependencies part) latin-1 encodings of the document; str inputs contain no lone surrogates",
-    "upper/mixed-case end tags and end tags whose inner whitespace is not HTML whitespace (VT, NBSP, other Unicode "
-    "spaces) may be read either as tags or as text (docs are silent): every consistent reading is accepted",
+    "end tags whose inner whitespace is not HTML whitespace (VT, NBSP, other Unicode spaces) may be read either as tags or as "
+    "text (docs are silent): every consistent reading is accepted; upper / mixed-case end tags are definite end tags",
     "only marker comments exactly as emitted for live component classes are markers; strings that merely resemble "
     "markers/placeholders (`<!-- _RENDERED foo -->`, placeholders with extra/other attributes, two id attributes -> C04) "
     "are outside the domain: documents containing such a string, or in which deleting markers/placeholders splices a new "
@@ -211,7 +211,7 @@ def scan(doc, fam):
     for m in ENDTAG.finditer(doc):
         classes = set()
         if m.group(1) not in ("head", "body"):
-            classes.add("case")
+            pass  # upper / mixed case: a definite end tag (the property's quantifier names case variants; HTML tag names are case-insensitive)
         for ch in m.group(2):
             if ch not in HTML_WS:
                 classes.add("vt" if ch == "\x0b" else "uws")
